@@ -45,7 +45,7 @@ def run(ctx):
     r.rule("R11.2", "every token kind produced for parsed trees is handled by every consumer", floor=20)
     r.rule("R11.3", "getNodeDetails tuple shapes of both walkers match what __iter__ unpacks; attribute keys are pairs", floor=12)
     r.rule("R11.4", "etree walker: push before each descent; exactly one pop per ascent from a non-text cursor", floor=4)
-    r.rule("R11.5", "text() emits leading space / middle / trailing space, non-empty parts only, in order", floor=3)
+    r.rule("R11.5", "text() emits leading space / middle / trailing space, non-empty parts only, in order", floor=100)
     base = repo.module("treewalkers/base.py")
     it = repo.func("treewalkers/base.py", "NonRecursiveTreeWalker.__iter__")
     ns_map = ce.const("constants.py", "namespaces")
@@ -53,10 +53,16 @@ def run(ctx):
     html = ns_map["html"]
 
     # ---- R11.1
+    from ..repo import inline_simple_calls
+    import copy as _copy
     guards = []
     for n in ast.walk(it.node):
-        if isinstance(n, ast.If) and "voidElements" in norm(n.test):
-            guards.append(n)
+        if isinstance(n, ast.If):
+            t = inline_simple_calls(base, n.test)
+            if "voidElements" in norm(t):
+                g = _copy.copy(n)
+                g.test = t
+                guards.append(g)
     if len(guards) != 2:
         raise AnalysisError("NonRecursiveTreeWalker.__iter__: expected two void-element guards, found %d" % len(guards))
     g_empty = next((g for g in guards if any("emptyTag" in norm(c) for c in ast.walk(g) if isinstance(c, ast.Call))), None)
@@ -200,28 +206,39 @@ def run(ctx):
     r.check("R11.4", bool(text_rets) and no_pop_on_text, "getParentNode::no-pop-from-text", gp.where,
             "the ascent from a text cursor pops the ancestor stack (the element was never pushed for it)")
 
-    # ---- R11.5
+    # ---- R11.5  decided by evaluating text() on representative strings
     tx = repo.func("treewalkers/base.py", "TreeWalker.text")
-    src = " ".join(norm(tx.node).split())
-    facts = {
-        "lstrip": "middle = data.lstrip(spaceCharacters)" in src and "left = data[:len(data) - len(middle)]" in src,
-        "rstrip": "middle = data.rstrip(spaceCharacters)" in src and "right = data[len(middle):]" in src,
-        "order": src.find("'SpaceCharacters', 'data': left") < src.find("'Characters', 'data': middle") < src.find("'SpaceCharacters', 'data': right")
-                 and src.find("'SpaceCharacters', 'data': left") > 0,
-    }
-    conds = [norm(n.test) for n in ast.walk(tx.node) if isinstance(n, ast.If)]
-    facts["non-empty-only"] = conds == ["left", "middle", "right"]
-    for k, v in facts.items():
-        if k in ("lstrip", "rstrip"):
+    dparam = tx.params()[1]
+    HTML_WS = "\t\n\x0c\r "
+    # abstract domain: text() handles its argument only through lstrip/rstrip(spaceCharacters), len and slicing, so a string is
+    # characterised by its sequence of character classes {HTML white space, other Unicode white space, anything else}; every
+    # class sequence of length <= 4 is decided, plus one string per remaining member of each class
+    import itertools
+    samples = ["".join(p) for n_ in range(0, 5) for p in itertools.product(" \x0ba", repeat=n_)]
+    samples += ["\t", "\n", "\x0c", "\r", "\r\n\x0c x\t", "\u00a0a\u2003", "\x1c a \x85"]
+    for smp in samples:
+        out_tokens = []
+
+        def stmt_hook(st, out, interp, out_tokens=out_tokens):
+            if isinstance(st, ast.Expr) and isinstance(st.value, ast.Yield) and st.value.value is not None:
+                out_tokens.append(interp.eval_expr(st.value.value, out.env))
+                return False
+            return NotImplemented
+        ti = MiniInterp(ce, base, stmt_hook=stmt_hook)
+        key = "text[%r]" % smp
+        try:
+            ti.run(tx.node.body, {dparam: smp, "self": Opaque("self")})
+        except Exception as e:      # noqa: BLE001 -- not evaluable: no verdict
+            r.idiom("R11.5", False, key, tx.where, "text() is not evaluable on %r (%s)" % (smp, str(e)[:80]))
             continue
-    strips = [norm(c) for c in ast.walk(tx.node) if isinstance(c, ast.Call) and isinstance(c.func, ast.Attribute) and c.func.attr in ("lstrip", "rstrip", "strip")]
-    r.idiom("R11.5", facts["lstrip"] and facts["rstrip"], "split", tx.where, "text() no longer splits by lstrip/rstrip of the white-space characters",
-            wrong=[(any(not x.endswith("(spaceCharacters)") for x in strips),
-                    "text() strips with %s: characters other than the five HTML white-space characters end up in SpaceCharacters tokens" % strips)])
-    r.idiom("R11.5", facts["order"], "order", tx.where, "text() does not emit leading space, text, trailing space in this order")
-    n_yields = sum(1 for n in ast.walk(tx.node) if isinstance(n, ast.Yield))
-    r.idiom("R11.5", facts["non-empty-only"], "non-empty-only", tx.where, "text() can emit empty tokens: guards are %s" % conds,
-            wrong=[(n_yields == 3 and len(conds) < 3 and all(c in ("left", "middle", "right") for c in conds), None)])
+        lead = smp[:len(smp) - len(smp.lstrip(HTML_WS))]
+        rest = smp[len(lead):]
+        mid = rest.rstrip(HTML_WS)
+        trail = rest[len(mid):]
+        exp = [{"type": t, "data": d} for t, d in (("SpaceCharacters", lead), ("Characters", mid), ("SpaceCharacters", trail)) if d]
+        r.check("R11.5", out_tokens == exp, key, tx.where,
+                "text(%r) yields %s; expected leading HTML white space, text, trailing HTML white space as non-empty tokens: %s"
+                % (smp, out_tokens, exp), detail={"input": smp, "tokens": out_tokens})
     sc = ce.const("treewalkers/base.py", "spaceCharacters")
     r.check("R11.5", set(sc) == set("\t\n\x0c\r "), "space-set", "treewalkers/base.py", "walker white space is %r" % sc)
     clark_names(ctx)
